@@ -604,7 +604,8 @@ def write_group(w: W, m, g, gi):
             w.sp()
             w.raw(g['color'], 'num')
         items.append(('flag', f))
-    note_in_settings = g['note'] and w.s.note_form == 'settings'
+    has_note = bool(g['note']) or g.get('force_note')        # surface choice: an explicitly empty note (`Note: ''`)
+    note_in_settings = has_note and w.s.note_form == 'settings'
     if note_in_settings:
         def f():
             w.kw('note:')
@@ -620,7 +621,7 @@ def write_group(w: W, m, g, gi):
     w.nl()
     w.depth += 1
     members = [('tab', k) for k in range(len(g['items']))]
-    if g['note'] and not note_in_settings:
+    if has_note and not note_in_settings:
         members = place(members, ('note', 0), w.s.note_pos)
     for kind, k in members:
         if kind == 'tab':
@@ -740,7 +741,7 @@ def write(m, style: Style = Style(), order=None) -> str:
     return ''.join(t.text for t in tokens(m, style, order))
 
 
-SURFACE_KEYS = ('default_src', 'null_explicit', 'force_paren', 'comment_above', '_written_inline', '_nrefs', 'prop_pos', 'idx_split')
+SURFACE_KEYS = ('default_src', 'null_explicit', 'force_paren', 'comment_above', '_written_inline', '_nrefs', 'prop_pos', 'idx_split', 'force_note')
 
 
 def expected(m):
